@@ -72,6 +72,7 @@ static void a_handler(const unsigned char *req, size_t n, vbuf *resp, void *user
 /* request header callback: the caller adds an instance id and a message id to every request header (the blocking clients
  * run it just before the PDU is serialized; the asynchronous service composes its own header and does not use it) */
 static int g_hdrcb;
+static int g_rekey;                /* the endpoint was first configured with OTHER credentials (and used once), then re-configured */
 #define A_INST 0x1122334455ULL
 #define A_MSG 9ULL
 static int a_hdr_cb(KSI_Header *hdr) {
@@ -113,7 +114,7 @@ static void a_one(int sv, int ver, int alg, const char *key, size_t keylen, int 
 
 	srv_install(a_handler, NULL);
 	A.nreq = 0; vb_reset(&A.last);
-	snprintf(tag, sizeof tag, "req:%s:v%d:alg%d%s", SVNAME[sv], ver, alg, g_hdrcb ? ":hdrcb" : "");
+	snprintf(tag, sizeof tag, "req:%s:v%d:alg%d%s%s", SVNAME[sv], ver, alg, g_hdrcb ? ":hdrcb" : "", g_rekey ? ":rekey" : "");
 	if (g_hdrcb && KSI_CTX_setRequestHeaderCallback(ctx, a_hdr_cb) != KSI_OK) vf_harness_error("header callback refused");
 	KSI_CTX_setOption(ctx, is_aggr ? KSI_OPT_AGGR_PDU_VER : KSI_OPT_EXT_PDU_VER, (void *)(size_t)ver);
 	if (is_aggr) KSI_CTX_setAggregatorHmacAlgorithm(ctx, (size_t)alg); else KSI_CTX_setExtenderHmacAlgorithm(ctx, (size_t)alg);
@@ -121,6 +122,14 @@ static void a_one(int sv, int ver, int alg, const char *key, size_t keylen, int 
 	if (sv == SV_EXT) with_pub = content;
 
 	if (client == CL_STCP || client == CL_SHTTP) {
+		if (g_rekey) {
+			/* former credentials, used for one request that nobody answers */
+			KSI_Config *c0 = NULL;
+			if ((is_aggr ? KSI_CTX_setAggregator(ctx, aggr_uri(client, 0), "former-login", "former-key-0123456789") : KSI_CTX_setExtender(ctx, ext_uri(client, 0), "former-login", "former-key-0123456789")) != KSI_OK) vf_harness_error("former endpoint");
+			if (is_aggr) KSI_receiveAggregatorConfig(ctx, &c0); else KSI_receiveExtenderConfig(ctx, &c0);
+			KSI_Config_free(c0);
+			A.nreq = 0; vb_reset(&A.last);
+		}
 		if ((is_aggr ? KSI_CTX_setAggregator(ctx, aggr_uri(client, 0), login, key) : KSI_CTX_setExtender(ctx, ext_uri(client, 0), login, key)) != KSI_OK) {
 			vf_fail("endpoint-refused", "%s: the endpoint (login id of %zu bytes, key of %zu bytes) was refused", tag, strlen(login), keylen);
 			goto done;
@@ -158,7 +167,28 @@ static void a_one(int sv, int ver, int alg, const char *key, size_t keylen, int 
 		KSI_AsyncHandle *hd = NULL;
 		res = is_aggr ? KSI_SigningAsyncService_new(ctx, &svc) : KSI_ExtendingAsyncService_new(ctx, &svc);
 		if (res != KSI_OK) vf_harness_error("async service new 0x%x", res);
-		if (KSI_AsyncService_setEndpoint(svc, is_aggr ? aggr_uri(client, 0) : ext_uri(client, 0), login, key) != KSI_OK) {
+		if (g_rekey) {
+			/* the service is first pointed at the endpoint with former credentials and carries one request, then re-pointed */
+			KSI_AsyncHandle *h0 = NULL;
+			KSI_DataHash *d0 = NULL;
+			unsigned char hh[RH_MAX_IMPRINT];
+			size_t hn = ref_fake_imprint(RH_SHA256, 5, hh);
+			if (KSI_AsyncService_setEndpoint(svc, is_aggr ? aggr_uri(client, 0) : ext_uri(client, 0), "former-login", "former-key-0123456789") != KSI_OK) vf_harness_error("former async endpoint");
+			if (is_aggr) {
+				KSI_DataHash_fromImprint(ctx, hh, hn, &d0);
+				if (KSI_AsyncSigningHandle_new(ctx, d0, 0, &h0) != KSI_OK) vf_harness_error("former handle");
+				if (KSI_AsyncService_addRequest(svc, h0) != KSI_OK) KSI_AsyncHandle_free(h0); else a_pump(svc);
+			}
+			A.nreq = 0; vb_reset(&A.last);
+		}
+		if (g_rekey && KSI_AsyncService_setEndpoint(svc, is_aggr ? aggr_uri(client, 0) : ext_uri(client, 0), login, key) != KSI_OK) {
+			/* a plain asynchronous service takes its endpoint once; the refusal is a definite answer and nothing is sent under mixed credentials */
+			vf_outcome("%s:async-endpoint-taken-once", tag);
+			if (A.nreq != 0) vf_fail("request-after-refused-endpoint", "%s: a request left although re-pointing the service was refused", tag);
+			KSI_AsyncService_free(svc);
+			goto done;
+		}
+		if (!g_rekey && KSI_AsyncService_setEndpoint(svc, is_aggr ? aggr_uri(client, 0) : ext_uri(client, 0), login, key) != KSI_OK) {
 			vf_fail("endpoint-refused", "%s: the asynchronous endpoint (login id of %zu bytes, key of %zu bytes) was refused", tag, strlen(login), keylen);
 			KSI_AsyncService_free(svc);
 			goto done;
@@ -257,21 +287,21 @@ done:
 
 static void part_a(void) {
 	int sv, ver, ai, ki, li, cl, c, cb;
-	for (cb = 0; cb < 2; cb++)
+	for (cb = 0; cb < 3; cb++)
 	for (sv = 0; sv < SV_N; sv++) for (ver = 2; ver >= 1; ver--) for (ai = 0; ai < NMACALG; ai++) for (ki = 0; ki < NKEYLEN; ki++)
 	for (li = 0; li < 3; li++) for (cl = CL_STCP; cl <= CL_AHTTP; cl++) {
 		int alg = MACALGS[ai];
 		if (!ref_backend_supports(alg)) continue;
 		/* with a request header callback: keys of 1 and 65 bytes, first login id, every service / version / client (thorough: every algorithm) */
 		if (cb && !((ki == 0 || ki == 7) && li == 0 && (ai == 0 || VF_THOROUGH))) continue;
-		g_hdrcb = cb;
+		g_hdrcb = cb == 1; g_rekey = cb == 2;
 		if (!VF_THOROUGH && !cb) {
 			/* quick: (all key lengths x SHA-256 x blocking TCP x all login ids) + (all algorithms x keys {1,64,65,65535} x all clients x login ids 0/2) */
 			int wide = (ai == 0 && cl == CL_STCP);
 			int narrow = (ki == 0 || ki == 6 || ki == 7 || ki == 12) && li != 1;
 			if (!wide && !narrow) continue;
 		}
-		if (!vf_case_begin("A%s:%s:v%d:a%d:k%d:l%d:%s", cb ? "cb" : "", SVNAME[sv], ver, alg, KEYLENS[ki], li, CLNAME[cl])) continue;
+		if (!vf_case_begin("A%s:%s:v%d:a%d:k%d:l%d:%s", cb == 1 ? "cb" : cb == 2 ? "rekey" : "", SVNAME[sv], ver, alg, KEYLENS[ki], li, CLNAME[cl])) continue;
 		{
 			const char *key = make_key(KEYLENS[ki]);
 			int nc = a_ncontent(sv);
@@ -973,7 +1003,7 @@ static void part_b(void) {
 static void run(void) {
 	vb_init(&G_cb);
 	part_a();
-	g_hdrcb = 0;
+	g_hdrcb = 0; g_rekey = 0;
 	part_b();
 }
 
